@@ -53,13 +53,27 @@ def ensure_gosum():
         pass
 
 
+def modfile_args():
+    """When VERIF_REPO points at a scratch copy, build against it through an
+    alternative go.mod (the committed one says replace => /repo)."""
+    if os.path.realpath(REPO) == "/repo":
+        return []
+    alt = os.path.join(BUILD, "alt.mod")
+    os.makedirs(BUILD, exist_ok=True)
+    txt = open(os.path.join(HARNESS, "go.mod")).read().replace("=> /repo", "=> " + os.path.realpath(REPO))
+    if not os.path.exists(alt) or open(alt).read() != txt:
+        open(alt, "w").write(txt)
+    shutil.copyfile(os.path.join(REPO, "go.sum"), os.path.join(BUILD, "alt.sum"))
+    return ["-modfile", alt]
+
+
 def build_go(cmdname, race=False, tags="verif"):
     """go build ./cmd/<cmdname> against /repo's working tree. Returns (path, err)."""
     ensure_gosum()
     out = os.path.join(BUILD, "bin", cmdname + ("-race" if race else ""))
     os.makedirs(os.path.dirname(out), exist_ok=True)
     env = dict(GOENV)
-    cmd = ["go", "build", "-tags", tags, "-o", out]
+    cmd = ["go", "build", "-tags", tags, "-o", out] + modfile_args()
     if race:
         env["CGO_ENABLED"] = "1"
         cmd.append("-race")
@@ -138,22 +152,58 @@ def check_properties_file(pid):
 FORBIDDEN = re.compile(r"\b(Admitted|admit|Axiom|Axioms|Parameter|Parameters|Conjecture|Conjectures|Admit Obligations|bypass_check|Unset Guard Checking|Unset Positivity Checking|Unset Universe Checking|type-in-type|impredicative-set)\b")
 
 
-def forbidden_scan():
+def dep_cone(targets):
+    """.v files in the dependency cone of the given .vo targets (from coqdep's
+    .Makefile.d); falls back to every file when the dependency file is missing."""
+    dfile = os.path.join(COQ, ".Makefile.d")
+    allv = [os.path.relpath(f, COQ) for f in glob.glob(os.path.join(COQ, "**", "*.v"), recursive=True)]
+    if not os.path.exists(dfile):
+        return allv
+    deps = {}
+    for line in open(dfile, errors="replace"):
+        if ":" not in line:
+            continue
+        lhs, rhs = line.split(":", 1)
+        outs = [x for x in lhs.split() if x.endswith(".vo")]
+        ins = [x for x in rhs.split() if x.endswith(".vo")]
+        for o in outs:
+            deps.setdefault(o, set()).update(ins)
+    seen, todo = set(), [t for t in targets]
+    while todo:
+        t = todo.pop()
+        if t in seen:
+            continue
+        seen.add(t)
+        todo.extend(deps.get(t, ()))
+    cone = [t[:-1] for t in seen if os.path.exists(os.path.join(COQ, t[:-1]))]
+    return cone or allv
+
+
+def forbidden_scan(targets=None):
     bad = []
-    for f in glob.glob(os.path.join(COQ, "**", "*.v"), recursive=True):
+    files = dep_cone(targets) if targets else [os.path.relpath(f, COQ) for f in glob.glob(os.path.join(COQ, "**", "*.v"), recursive=True)]
+    for rel in sorted(files):
+        f = os.path.join(COQ, rel)
         txt = open(f, errors="replace").read()
-        # strip comments (non-nested is enough for our files; nested handled by loop)
+        # strip comments (innermost first, repeated, handles nesting) and strings
         prev = None
         while prev != txt:
             prev = txt
-            txt = re.sub(r"\(\*[^*(]*(?:\*(?!\))[^*(]*|\((?!\*)[^*(]*)*\*\)", " ", txt)
+            txt = re.sub(r"\(\*(?:(?!\(\*|\*\)).)*\*\)", " ", txt, flags=re.S)
+        txt = re.sub(r'"(?:[^"]|"")*"', '""', txt)
         for m in FORBIDDEN.finditer(txt):
             bad.append("%s: %s" % (os.path.relpath(f, VERIF), m.group(0)))
-        for m in re.finditer(r"^\s*(Variable|Variables|Hypothesis|Hypotheses|Context)\b", txt, re.M):
-            # only allowed inside a Section
-            pre = txt[:m.start()]
-            if len(re.findall(r"^\s*Section\b", pre, re.M)) <= len(re.findall(r"^\s*End\b", pre, re.M)) - len(re.findall(r"^\s*Module\b", pre, re.M)):
-                bad.append("%s: %s outside a section" % (os.path.relpath(f, VERIF), m.group(1)))
+        depth = 0
+        for m in re.finditer(r"^\s*(Section|End|Module|Variable|Variables|Hypothesis|Hypotheses)\b", txt, re.M):
+            w = m.group(1)
+            if w == "Section":
+                depth += 1
+            elif w == "End":
+                depth = max(0, depth - 1)
+            elif w == "Module":
+                depth += 1      # End closes modules as well
+            elif depth == 0:
+                bad.append("%s: %s outside a section" % (os.path.relpath(f, VERIF), w))
     return bad
 
 
@@ -360,7 +410,7 @@ def main_check(prop, argv):
             broken.append(("properties-file", plog[-4000:]))
     else:
         names = theorem_names(os.path.join(COQ, "Properties", pid + ".v"))
-    bad = forbidden_scan()
+    bad = forbidden_scan(prop.targets())
     if bad:
         broken.append(("forbidden-construct", "\n".join(bad)))
     nonstd = {n: a for n, a in axioms.items() if a not in ("closed",)}
